@@ -30,7 +30,7 @@ FLOORS = {
                  'api:replace_var_with_this': 50000, 'api:canonical_form': 20000, 'function_grid_cells': 300,
                  'multiarg_calls': 6000},
 }
-BUDGET = {'quick': {'random': 5000, 'props': 2500, 'grid_reps': 1, 'ss_fills': 1},
+BUDGET = {'quick': {'random': 10000, 'props': 4000, 'grid_reps': 2, 'ss_fills': 2},
           'thorough': {'random': 120000, 'props': 60000, 'grid_reps': 20, 'ss_fills': 8}}
 TIMEOUT = {'quick': 900, 'thorough': 7200}
 
